@@ -27,28 +27,52 @@ Definition fails (s : script) : bool := match fail_warning s with Some _ => true
 Definition warns_source (s : script) : bool :=
   fails s || match sopen_err s with Some _ => false | None => negb (match frame_warnings (sframes s) with [] => true | _ => false end) end.
 
+(* ---- through the Thanos querier (pkg/query/querier.go): Select with partial response on / off
+   issues the Series request with strategy WARN / ABORT (PartialResponseDisabled unset, no
+   replica labels when deduplication is off, no limit); warnings become annotations (a set of
+   texts), an aborted request is the error of the series set ---- *)
+Fixpoint uinsert (x : str) (l : list str) : list str :=
+  match l with
+  | [] => [x]
+  | y :: r => match str_cmp x y with Gt => y :: uinsert x r | Eq => l | Lt => x :: l end
+  end.
+Definition uset (l : list str) : list str := fold_right uinsert [] l.
+Definition querier_select (lazy partial : bool) (batch : nat) (ss : list script) : option (list labels * list str) :=
+  match proxy6 lazy [] false (if partial then WARN else ABORT) 0 batch ss with
+  | None => None
+  | Some fs => Some (map fst (out_series fs), uset (frame_warnings fs))
+  end.
+
 Inductive case :=
 | CFail (lazy : bool) (buf : nat) (wrl : list str) (disabled : bool) (strategy : Z) (batch : nat) (stores : list script)
         (* implementation observables: None = Series returned an error; frames with warning texts blanked,
            warning texts sorted (a warning naming a failing store is replaced by that store's token) *)
-        (o_frames : option (list frame)) (o_warns : list str).
+        (o_frames : option (list frame)) (o_warns : list str)
+        (* the same stores through querier.Select with partialResponse = q_partial: None = the series set's
+           error; label sets in order, distinct annotation texts sorted (failing stores as tokens) *)
+        (q_partial : bool) (o_q : option (list labels * list str)).
 
 Definition corr_ok (c : case) : bool :=
   match c with
-  | CFail lazy buf wrl disabled strategy batch stores o_frames o_warns =>
-      match proxy6 lazy wrl disabled strategy 0 batch stores, o_frames with
+  | CFail lazy buf wrl disabled strategy batch stores o_frames o_warns q_partial o_q =>
+      (match proxy6 lazy wrl disabled strategy 0 batch stores, o_frames with
       | Some fs, Some ofs =>
           list_eqb frame_eqb (map anon fs) ofs && list_eqb str_eqb (ssort (frame_warnings fs)) o_warns
       | None, None => true
       | _, _ => false
-      end
+      end)
+      && match querier_select lazy q_partial batch stores, o_q with
+         | None, None => true
+         | Some (ls, ws), Some (ols, ows) => list_eqb labels_eqb ls ols && list_eqb str_eqb ws ows
+         | _, _ => false
+         end
   end.
 
 (* the property on the implementation's own result *)
 Definition pred_ok (c : case) : bool :=
   match c with
-  | CFail lazy buf wrl disabled strategy batch stores o_frames o_warns =>
-      let abort := disabled || (strategy =? ABORT) in
+  | CFail lazy buf wrl disabled strategy batch stores o_frames o_warns q_partial o_q =>
+      (let abort := disabled || (strategy =? ABORT) in
       if abort then
         (* a failing (or warning) store fails the request; without one it succeeds *)
         if existsb warns_source stores
@@ -68,5 +92,19 @@ Definition pred_ok (c : case) : bool :=
                           || forallb (fun q => existsb (fun p => labels_eqb (fst p) (fst q)
                                                              && subset_keys (map ckey (snd q)) (map ckey (snd p))) outs)
                                      (in_series wrl s)) stores
-        end
+        end)
+      (* the same through the querier *)
+      && (if negb q_partial then
+            if existsb warns_source stores
+            then match o_q with None => true | Some _ => false end
+            else match o_q with None => false | Some _ => true end
+          else match o_q with
+               | None => false
+               | Some (ols, ows) =>
+                   forallb (fun s => match fail_warning s with
+                                     | Some w => existsb (str_eqb w) ows
+                                     | None => true end) stores
+                   && forallb (fun s => fails s
+                                 || forallb (fun q => existsb (labels_eqb (fst q)) ols) (in_series [] s)) stores
+               end)
   end.
